@@ -130,6 +130,10 @@ func (c *Ctx) queryCustomStore(P string) Obligation {
 		for _, src := range ctxStoreSources(s.Call.Args[0]) {
 			o.Facts++
 			d := desc(src, maxDepth)
+			// a context obtained from Context.PrevCtx carries the lazily loaded store of that height (C09/C13 check PrevCtx itself)
+			if reMatch(`^\(types\.Context\)\.PrevCtx\(.*\)#0$`, d) {
+				continue
+			}
 			if !strings.Contains(d, "LoadLazyVersion(assert<*store/rootmulti.Store>(app.cms), ") || !strings.HasPrefix(d, "assert<*store/rootmulti.Store>(") {
 				o.fail(c.A.Pos(s.Ins.Pos()), "querier context store is %s", d)
 			}
